@@ -145,7 +145,7 @@ func main() {
 	}
 	extraEnv := []string{}
 	if *prop == "C20" {
-		for _, v := range []string{"v1.5.0", "v2.0.0", ""} {
+		for _, v := range []string{"v1.5.0", "v2.0.0", "v2.1.0-rc1", ""} {
 			out := filepath.Join(scratch, "crs-toolchain-"+v)
 			if v == "" {
 				out = filepath.Join(scratch, "crs-toolchain-noversion")
